@@ -355,6 +355,8 @@ func c15branchClass(m *rm.Tree, tip string) string {
 				cl = "absent"
 			case n.Len == 0:
 				cl = "zero"
+			case n.Len < 0:
+				cl = "negative"
 			default:
 				cl = "nonzero"
 			}
@@ -688,7 +690,7 @@ func c15run(cs c15case) (string, string) {
 // ---- enumeration -----------------------------------------------------------------------
 
 // c15lenForest: every decoration of the trees with default lengths i/8 on the i-th branch (pre-order, counted
-// through all trees) and at most maxDev branches deviating to {absent, 0, 0.1}.
+// through all trees) and at most maxDev branches deviating to {absent, 0, 0.1, -0.25}.
 func c15lenForest(trees []*rm.Tree, maxDev int, f func(ms []*rm.Tree)) {
 	nb := 0
 	for _, t := range trees {
@@ -696,7 +698,7 @@ func c15lenForest(trees []*rm.Tree, maxDev int, f func(ms []*rm.Tree)) {
 	}
 	menu := make([]int, nb)
 	for i := range menu {
-		menu[i] = 4
+		menu[i] = 5
 	}
 	enum.Deviations(menu, maxDev, func(assign []int) {
 		ms := make([]*rm.Tree, len(trees))
@@ -715,6 +717,8 @@ func c15lenForest(trees []*rm.Tree, maxDev int, f func(ms []*rm.Tree)) {
 					n.Len = 0
 				case 3:
 					n.Len = 0.1
+				case 4:
+					n.Len = -0.25 // distance-based trees (NJ, least squares) carry negative lengths
 				}
 				i++
 			})
